@@ -38,7 +38,7 @@ from unittest import mock
 from harness.common import framework as fw
 
 PROP = "C18"
-GENERATED = ["TimeoutsGen.v", "PoolGen.v"]
+GENERATED = ["TimeoutsGen.v"]
 RULE = ("suite histories: stimulus histories (start/dns/conn/written/data/read/cancel/adv) over <= 4 requests sharing "
         "one pool (limit 0/1/2) and one DNS lookup, timeouts total/connect/sock_connect/sock_read below and above the "
         "ceil threshold, start offsets inside the second, generated from one PRNG seeded by VERIF_SEED by looking at "
